@@ -874,13 +874,14 @@ Dic<String> String::split(const String& sep1, const String& sep2) const
 
 int myatoi(const char* s)
 {
-	int y = 0, sgn = 1;
+	unsigned y = 0; // unsigned: "-2147483648" must not overflow a signed accumulator
+	int sgn = 1;
 	if (s[0] == '-') { sgn = -1; s++; }
 	else if (s[0] == '+') s++;
 	int c;
 	while (c = *s++, c >= '0' && c <= '9')
-		y = 10 * y + (c - '0');
-	return y*sgn;
+		y = 10 * y + unsigned(c - '0');
+	return (sgn < 0) ? int(0u - y) : int(y);
 }
 
 int myatoiz(const char* s)
@@ -896,13 +897,14 @@ int myatoiz(const char* s)
 
 Long myatol(const char* s)
 {
-	Long y = 0, sgn = 1;
+	ULong y = 0; // unsigned: the most negative value and ULong texts above 2^63 must not overflow
+	int sgn = 1;
 	if (s[0] == '-') { sgn = -1; s++; }
 	else if (s[0] == '+') s++;
 	int c;
 	while (c = *s++, c >= '0' && c <= '9')
-		y = 10 * y + (c - '0');
-	return y*sgn;
+		y = 10 * y + ULong(c - '0');
+	return (sgn < 0) ? Long(ULong(0) - y) : Long(y);
 }
 
 double myatof(const char* s)
